@@ -63,15 +63,6 @@ Proof.
   specialize (S _ H). rewrite G in S. simpl in S. apply opt_eqb_eq. exact S.
 Qed.
 
-Lemma type_table_exact_refuted :
-  exists op a b ty raised,
-    In (op, a, b, ty, raised) binop_table /\ effective ty raised <> rule_bin op a b.
-Proof.
-  exists OP_INTDIV, 3, 3, 3, 0. split.
-  - vm_compute. tauto.
-  - vm_compute. discriminate.
-Qed.
-
 Lemma unop_table_ok op a ty raised :
   In (op, a, ty, raised) unop_table -> effective ty raised = rule_un op a.
 Proof.
